@@ -2,6 +2,7 @@ package c19
 
 import (
 	"fmt"
+	"sort"
 	"strings"
 	"sync"
 	"testing"
@@ -333,18 +334,43 @@ type PagerCase struct {
 	Text    []string `json:"text"`
 	Width   int      `json:"width"`
 	Height  int      `json:"height"`
-	Scrolls []int    `json:"scrolls"` // +1 down, -1 up, 0 draw
+	Scrolls []int    `json:"scrolls"`        // +1 down, -1 up, 0 draw
+	Cuts    []int    `json:"cuts,omitempty"` // the text is handed over as segments cut before these cluster indices
+}
+
+// segments cuts the text into the segments the pager is given (never inside a
+// cluster).
+func (c PagerCase) segments() []vaxis.Segment {
+	var out []vaxis.Segment
+	start := 0
+	cuts := append(append([]int{}, c.Cuts...), len(c.Text))
+	sort.Ints(cuts)
+	for i, cut := range cuts {
+		if cut > len(c.Text) {
+			cut = len(c.Text)
+		}
+		if cut < start {
+			continue
+		}
+		out = append(out, vaxis.Segment{Text: strings.Join(c.Text[start:cut], ""), Style: vaxis.Style{Foreground: vaxis.IndexColor(uint8(i + 1))}})
+		start = cut
+	}
+	return out
 }
 
 func nonBlank(gs []string) string {
 	var sb strings.Builder
 	for _, g := range gs {
-		if g != " " && g != "\n" {
+		if g != " " && !isBreak(g) {
 			sb.WriteString(g)
 		}
 	}
 	return sb.String()
 }
+
+// isBreak: a line terminator of the generated texts (LF, or CR LF, which is
+// one grapheme cluster).
+func isBreak(g string) bool { return g == "\n" || g == "\r\n" }
 
 func runPager(c PagerCase) string {
 	h := hostVaxis()
@@ -356,7 +382,7 @@ func runPager(c PagerCase) string {
 	text := strings.Join(c.Text, "")
 	want := nonBlank(c.Text)
 	// (1) everything is presented: a window tall enough for every line
-	m := &pager.Model{Segments: []vaxis.Segment{{Text: text}}}
+	m := &pager.Model{Segments: c.segments()}
 	h.Vx.Window().Clear()
 	if p := guard(func() { m.Draw(h.Vx.Window().New(0, 0, c.Width, 40)) }); p != "" {
 		return fmt.Sprintf("pager text %q width %d: Draw panicked: %s", text, c.Width, p)
@@ -371,6 +397,31 @@ func runPager(c PagerCase) string {
 	if got.String() != want {
 		return fmt.Sprintf("pager text %q at width %d presents %q, the text's characters are %q (rows %q)", text, c.Width, got.String(), want, trimRows(rows))
 	}
+	// every line of the text is presented as a line: two characters with k
+	// line terminators between them are at least k rows apart (the alphabet's
+	// visible clusters are single runes)
+	var rowOf []int
+	for r, row := range rows {
+		for _, ch := range row {
+			if ch != ' ' {
+				rowOf = append(rowOf, r)
+			}
+		}
+	}
+	prev, breaks, vis := -1, 0, 0
+	for _, g := range c.Text {
+		switch {
+		case isBreak(g):
+			breaks++
+		case g == " ":
+		default:
+			if prev >= 0 && vis < len(rowOf) && rowOf[vis]-rowOf[prev] < breaks {
+				return fmt.Sprintf("pager text %q at width %d: %d line terminator(s) lie between visible characters %d and %d, but they are drawn on rows %d and %d (rows %q)", text, c.Width, breaks, prev, vis, rowOf[prev], rowOf[vis], trimRows(rows))
+			}
+			prev, breaks = vis, 0
+			vis++
+		}
+	}
 	// nothing is drawn right of the window
 	h.Term.Lock()
 	for r := 0; r < 40; r++ {
@@ -383,7 +434,7 @@ func runPager(c PagerCase) string {
 	}
 	h.Term.Unlock()
 	// (2) scrolling
-	m2 := &pager.Model{Segments: []vaxis.Segment{{Text: text}}}
+	m2 := &pager.Model{Segments: c.segments()}
 	win := h.Vx.Window().New(0, 0, c.Width, c.Height)
 	for i, s := range c.Scrolls {
 		p := guard(func() {
@@ -415,7 +466,7 @@ func runPager(c PagerCase) string {
 	if m2.Offset < 0 {
 		return fmt.Sprintf("pager text %q: offset %d after scrolling to the end", text, m2.Offset)
 	}
-	lastIsBlank := len(c.Text) == 0 || c.Text[len(c.Text)-1] == " " || c.Text[len(c.Text)-1] == "\n"
+	lastIsBlank := len(c.Text) == 0 || c.Text[len(c.Text)-1] == " " || isBreak(c.Text[len(c.Text)-1])
 	if c.Height > 0 && want != "" && !lastIsBlank {
 		h.Vx.Render()
 		rows, _ := readRows(h, hostCols, c.Height)
@@ -429,15 +480,15 @@ func runPager(c PagerCase) string {
 			if !(shown != "" && strings.HasSuffix(want, shown)) {
 				lastNonBlank := ""
 				for i := len(c.Text) - 1; i >= 0; i-- {
-					if c.Text[i] != " " && c.Text[i] != "\n" {
+					if c.Text[i] != " " && !isBreak(c.Text[i]) {
 						lastNonBlank = c.Text[i]
 						break
 					}
 				}
 				// trailing blank lines may fill the window legitimately
 				trailingLines := 0
-				for i := len(c.Text) - 1; i >= 0 && (c.Text[i] == "\n" || c.Text[i] == " "); i-- {
-					if c.Text[i] == "\n" {
+				for i := len(c.Text) - 1; i >= 0 && (isBreak(c.Text[i]) || c.Text[i] == " "); i-- {
+					if isBreak(c.Text[i]) {
 						trailingLines++
 					}
 				}
@@ -582,6 +633,19 @@ func TestPager(t *testing.T) {
 		for i := 0; i < k; i++ {
 			c.Text = append(c.Text, rapid.SampledFrom([]string{"a", "a", "b", "宽", " ", "\n"}).Draw(rt, "g"))
 		}
+		if k > 1 && rapid.IntRange(0, 2).Draw(rt, "segmented") == 1 {
+			harness.R.Label(sub, "text in several segments")
+			c.Cuts = rapid.SliceOfN(rapid.IntRange(0, k), 1, 3).Draw(rt, "cuts")
+		}
+		if rapid.IntRange(0, 3).Draw(rt, "crlf") == 1 {
+			// DOS / network line endings: CR LF is one cluster
+			harness.R.Label(sub, "CR LF line endings")
+			for i, g := range c.Text {
+				if g == "\n" {
+					c.Text[i] = "\r\n"
+				}
+			}
+		}
 		if rapid.Bool().Draw(rt, "final-lf") {
 			c.Text = append(c.Text, "\n")
 		}
@@ -592,7 +656,7 @@ func TestPager(t *testing.T) {
 		cc := Case{Pager: &c}
 		w := 0
 		for _, g := range c.Text {
-			if g == "\n" {
+			if isBreak(g) {
 				w = 0
 			} else if g == "宽" {
 				w += 2
